@@ -26,7 +26,7 @@ func wli(b *builder) *node { return b.leaf("li", "li@wrapped") }
 func liWith(b *builder, depth int, textAfter bool, kids ...*node) *node {
 	n := el("li")
 	pieces, tok := b.inline()
-	n.tok, n.kind = tok, fmt.Sprintf("li%d", depth)
+	n.tok, n.kind, n.textAfter = tok, fmt.Sprintf("li%d", depth), textAfter
 	if !textAfter {
 		for _, p := range pieces {
 			n.add(p)
